@@ -9,7 +9,7 @@ is a SURVIVOR worth reading (equivalent mutant, outside the statement, or a gap 
 Results: build/mutcamp/<ID>.jsonl (one line per mutant) and a summary on stdout."""
 import json, os, re, subprocess, sys, collections, shutil, time
 V = '/verif'
-ENV = dict(os.environ, GOFLAGS='-mod=mod', GOPROXY='off', GOSUMDB='off', GOTOOLCHAIN='local')
+ENV = dict(os.environ, GOFLAGS='-mod=mod', GOPROXY='off', GOSUMDB='off', GOTOOLCHAIN='local', VERIF_PMC_BUILD='/verif/build/mc')
 pid = sys.argv[1]
 args = sys.argv[2:]
 maxn, funcs_arg, allfuncs, nosuite = 40, None, False, False
@@ -28,6 +28,8 @@ for m in prop['anchors']['mechanism']:
         names.add(w.split('.')[-1])
 if funcs_arg: names = set(funcs_arg)
 subprocess.run(['go', 'build', '-o', V + '/build/mutgen', '.'], cwd=V + '/cmd/mutgen', env=ENV, check=True)
+if not os.path.exists('/verif/build/mc/instr'):
+    subprocess.run([V + '/pmc', 'setup'], cwd=V, env=ENV, capture_output=True)
 # coverage: file -> list of (l0,c0,l1,c1,count)
 cov = collections.defaultdict(list)
 cp = V + '/build/cov/%s.txt' % pid
